@@ -41,6 +41,7 @@ type envOpts struct {
 	ReconnBase      time.Duration
 	ReconnMax       time.Duration
 	ConnectTimeout  time.Duration
+	ListenAny       bool // listen on 0.0.0.0 (clients can then reach the proxy through any loopback address)
 	RPCAddr         string
 	DC              string
 	Tokens          []string
@@ -156,7 +157,11 @@ func startEnv(o envOpts) (*env, error) {
 		closeCluster()
 		return nil, fmt.Errorf("proxy connect: %w", err)
 	}
-	ln, err := net.Listen("tcp", "127.0.0.1:0")
+	laddr := "127.0.0.1:0"
+	if o.ListenAny {
+		laddr = "0.0.0.0:0"
+	}
+	ln, err := net.Listen("tcp", laddr)
 	if err != nil {
 		cancel()
 		closeCluster()
@@ -201,6 +206,20 @@ func (e *env) Close() {
 // client connects a raw client and performs STARTUP.
 func (e *env) client(v primitive.ProtocolVersion, comp string) (*rawcli.Client, error) {
 	c, err := rawcli.Dial(e.Addr)
+	if err != nil {
+		return nil, err
+	}
+	e.addClient(c)
+	if err := c.Startup(v, comp, posWait); err != nil {
+		return nil, err
+	}
+	return c, nil
+}
+
+// clientVia connects through the given local address of the proxy (ListenAny environments) and performs STARTUP.
+func (e *env) clientVia(ip string, v primitive.ProtocolVersion, comp string) (*rawcli.Client, error) {
+	_, port, _ := net.SplitHostPort(e.Addr)
+	c, err := rawcli.Dial(net.JoinHostPort(ip, port))
 	if err != nil {
 		return nil, err
 	}
